@@ -52,7 +52,7 @@ Note: files under autobean_refactor/models/generated/ are byte-compared with the
 
 Deliverables, all written into {wt}/_seed/ :
  1. patch.diff - the output of `git -C {wt} diff -- autobean_refactor` (your source change only).
- 2. demo.py - a small standalone script that checks the property on a concrete scenario: it exits 0 when the property holds and exits 1 (printing what went wrong) when it is violated. It must exit 1 WITH your change and exit 0 on the ORIGINAL code. Verify both (e.g. `git -C {wt} stash; PYTHONPATH={wt} /venv/bin/python {wt}/_seed/demo.py; echo $?; git -C {wt} stash pop`). Note _seed/ is untracked so stash leaves it alone.
+ 2. demo.py - a small standalone script that checks the property on a concrete scenario: it exits 0 when the property holds and exits 1 (printing what went wrong) when it is violated. It must exit 1 WITH your change and exit 0 on the ORIGINAL code. Verify both: undo the change with `git -C {wt} diff -- autobean_refactor > {wt}/_seed/patch.diff && git -C {wt} apply -R {wt}/_seed/patch.diff`, run the demo, then re-apply with `git -C {wt} apply {wt}/_seed/patch.diff` (do NOT use git stash: the stash is shared by all worktrees of the repository and other agents work in parallel).
  3. meta.json - {{"property": "{pid}", "summary": "<one sentence: what you changed>", "needs": "<what specific input / sequence / position is required for the violation to show>", "files": ["..."]}}
 Leave the worktree with your change applied.
 
